@@ -6,4 +6,8 @@ PROPS = {
     'C14': {'modules': ['harness.h_c14']},
     'C15': {'modules': ['harness.h_c15']},
     'C06': {'modules': ['harness.k_c06', 'harness.h_c06']},
+    'C04': {'modules': ['harness.p_sim']},
+    'C12': {'modules': ['harness.p_sim']},
+    'C13': {'modules': ['harness.p_sim']},
+    'C11': {'modules': ['harness.h_c11']},
 }
